@@ -323,6 +323,12 @@ def line_case(draw, tier='quick', max_lines=8):
         return out[:3] or None
 
     opts['ignore_patterns'] = uniq(pats)
+    if opts['ignore_patterns'] and max(
+            [len(re.findall(r'[0-9a-f]+', ln)) for ln in ref + act] + [0]) > 5:
+        # tdda's matching (and any faithful copy of it) takes time
+        # exponential in matches-per-line x patterns: minutes for 7 numeric
+        # fields and 3 patterns; long lines get one pattern
+        opts['ignore_patterns'] = opts['ignore_patterns'][:1]
     opts['ignore_substrings'] = uniq(subs)
     opts['remove_lines'] = uniq(marks)
     return {'ref': ref, 'act': act, 'opts': opts}
@@ -442,8 +448,17 @@ def greedy_equivalent(a, e, patterns):
     accepts fewer pairs than the statement's rule (pattern_equivalent).
     Used only to recognise the recorded finding exactly.
     """
+    return _greedy(a, e, tuple(patterns), {})
+
+
+def _greedy(a, e, patterns, memo):
+    # (memoised on the pair of fragments: the plain recursion, like tdda's
+    # own, is exponential in the number of matches in a line)
     if a == e:
         return True
+    if (a, e) in memo:
+        return memo[(a, e)]
+    result = False
     for p in patterns:
         core, left, right = split_anchors(p)
         rx = re.compile(('^' if left else '^(?P<L>.*)') + '(?:%s)' % core
@@ -453,13 +468,15 @@ def greedy_equivalent(a, e, patterns):
             continue
         ok = True
         for side in ('L', 'R'):
-            if side in rx.groupindex and not greedy_equivalent(
-                    ma.group(side), me.group(side), patterns):
+            if side in rx.groupindex and not _greedy(
+                    ma.group(side), me.group(side), patterns, memo):
                 ok = False
                 break
         if ok:
-            return True
-    return False
+            result = True
+            break
+    memo[(a, e)] = result
+    return result
 
 
 def text_lines(lines, final_newline):
